@@ -401,6 +401,21 @@ func TestInstances(t *testing.T) {
 			}
 			return try.Success(a.Get() + b.Get())
 		}, nil))
+	// operands with spare capacity (0..4 unused elements behind the length): a Combine that appends in place
+	// would write into its left operand's array, which an earlier result may share
+	capSlice := rapid.Custom(func(t *rapid.T) []int {
+		xs := kit.IntSlice(3).Draw(t, "xs")
+		if xs == nil && rapid.Bool().Draw(t, "nil") {
+			return nil
+		}
+		return append(make([]int, 0, len(xs)+rapid.IntRange(0, 4).Draw(t, "spare")), xs...)
+	})
+	runLaws(t, mk("monoid.MergeSeq[int]/spare-capacity", monoid.MergeSeq[int](), rapid.Map(capSlice, func(s []int) fp.Seq[int] { return s }),
+		func(a, b fp.Seq[int]) bool { return eqSliceNilEmpty(a, b) }, sprint[fp.Seq[int]],
+		func(a, b fp.Seq[int]) fp.Seq[int] { return append(append(fp.Seq[int]{}, a...), b...) }, func() fp.Seq[int] { return nil }))
+	runLaws(t, mk("monoid.MergeSlice[int]/spare-capacity", monoid.MergeSlice[int](), capSlice,
+		eqSliceNilEmpty[int], sprint[[]int],
+		func(a, b []int) []int { return append(append([]int{}, a...), b...) }, func() []int { return nil }))
 	runLaws(t, mk("monoid.MergeSeq[int]", monoid.MergeSeq[int](), rapid.Map(kit.IntSlice(3), func(s []int) fp.Seq[int] { return s }),
 		func(a, b fp.Seq[int]) bool { return eqSliceNilEmpty(a, b) }, sprint[fp.Seq[int]],
 		func(a, b fp.Seq[int]) fp.Seq[int] { return append(append(fp.Seq[int]{}, a...), b...) }, func() fp.Seq[int] { return nil }))
@@ -634,6 +649,66 @@ func TestReduce(t *testing.T) {
 	reduceChecks(t, "All", monoid.All, func(a, b bool) bool { return a && b }, func() bool { return true }, rapid.Bool(), ceq[bool], sprint[bool])
 	reduceChecks(t, "Any", monoid.Any, func(a, b bool) bool { return a || b }, func() bool { return false }, rapid.Bool(), ceq[bool], sprint[bool])
 	_ = str
+
+	// Reduce / FoldMap over elements that are VIEWS of one shared buffer (prefixes buf[:k], the rest of the
+	// buffer is their spare capacity) - e.g. the rows of a table read into one array. A Combine that appends
+	// in place writes into that buffer: the left fold from Empty owns its accumulator, but a fold that passes
+	// an ELEMENT as the left operand (the right folds behind list.Reduce / list.FoldMap) rewrites the other
+	// elements. Added after an independently seeded change (MergeSeq: append(a, b...)).
+	kit.Check(t, "Reduce+FoldMap/MergeSeq+MergeSlice/shared-buffer-views", "0..6 prefix lengths k_i in 0..4 over a fresh buffer [0,1,..,9]; elements buf[:k_i]; seq/iterator/list Reduce and seq/list FoldMap(id) with MergeSeq and MergeSlice, each on freshly made views; oracle: concatenation of prefix COPIES; non-trivial iff >= 2 non-empty elements; distinct by printed lengths and list/iterator kinds",
+		kit.Opt{}, func(rt *rapid.T, rec *kit.Rec) {
+			ks := rapid.SliceOfN(rapid.IntRange(0, 4), 0, 6).Draw(rt, "ks")
+			lk, ik := rapid.IntRange(0, 3).Draw(rt, "listKind"), rapid.IntRange(0, 2).Draw(rt, "iterKind")
+			nonEmpty := 0
+			want := []int{}
+			for _, k := range ks {
+				if k > 0 {
+					nonEmpty++
+				}
+				for j := 0; j < k; j++ {
+					want = append(want, j)
+				}
+			}
+			rec.Case(nonEmpty >= 2, fmt.Sprintf("ks=%v list k%d iter k%d", ks, lk, ik))
+			views := func() []fp.Seq[int] {
+				buf := []int{0, 1, 2, 3, 4, 5, 6, 7, 8, 9}
+				vs := make([]fp.Seq[int], len(ks))
+				for i, k := range ks {
+					vs[i] = buf[:k]
+				}
+				return vs
+			}
+			slices := func() [][]int {
+				vs := views()
+				r := make([][]int, len(vs))
+				for i := range vs {
+					r[i] = vs[i]
+				}
+				return r
+			}
+			ms, ml := monoid.MergeSeq[int](), monoid.MergeSlice[int]()
+			runs := []struct {
+				name string
+				run  func() []int
+			}{
+				{"seq.Reduce(MergeSeq)", func() []int { return seq.Reduce(views(), ms) }},
+				{"iterator.Reduce(MergeSeq)", func() []int { return iterator.Reduce(mkIter(ik, views()), ms) }},
+				{"list.Reduce(MergeSeq)", func() []int { return list.Reduce(mkList(lk, views()), ms) }},
+				{"seq.FoldMap(MergeSeq)", func() []int { return seq.FoldMap(views(), ms, fp.Id[fp.Seq[int]]) }},
+				{"list.FoldMap(MergeSeq)", func() []int { return list.FoldMap(mkList(lk, views()), ms, fp.Id[fp.Seq[int]]) }},
+				{"seq.Reduce(MergeSlice)", func() []int { return seq.Reduce(slices(), ml) }},
+				{"list.Reduce(MergeSlice)", func() []int { return list.Reduce(mkList(lk, slices()), ml) }},
+				{"list.FoldMap(MergeSlice)", func() []int { return list.FoldMap(mkList(lk, slices()), ml, fp.Id[[]int]) }},
+			}
+			for _, r := range runs {
+				var got []int
+				sig := "C11|" + r.name + "|shared-buffer-views"
+				rec.Guard(rt, sig, func() { got = r.run() })
+				if !eqSliceNilEmpty(got, want) {
+					rec.Failf(rt, sig, "%s over the prefixes of lengths %v of one buffer [0..9] = %v, the concatenation is %v", r.name, ks, got, want)
+				}
+			}
+		})
 
 	// FoldMap with a mapping function
 	rule := "xs ints (len 0..8), table function f: int -> string / Seq; oracle: left fold of Combine(acc, f(x)) from Empty; non-trivial iff len(xs) >= 2"
